@@ -29,6 +29,9 @@ ResOK(e) == e.panic = "" /\ e.t \in {Tests[i] : i \in 1..15} /\ ResultOK(e.t, e.
 BytesOK(e) == /\ Len(e.rows) = 256 /\ Len(e.back) = 256
               /\ \A b \in 0..255 : e.rows[b + 1] = ByteBits(b) /\ e.back[b + 1] = b
               /\ e.arr = BytesToBits(e.arrbytes)
+              \* ... and still after a caller has appended to and overwritten the slices it was handed
+              /\ Len(e.rows2) = 256 /\ \A b \in 0..255 : e.rows2[b + 1] = ByteBits(b)
+              /\ e.arr2 = BytesToBits(e.arrbytes)
 Init == l = 1
 Step == /\ l <= Len(Trace)
         /\ LET e == Trace[l] IN CASE e.ev = "reg" -> RegOK(e) [] e.ev = "res" -> ResOK(e) [] e.ev = "bytes" -> BytesOK(e) [] OTHER -> FALSE
